@@ -200,6 +200,17 @@ class FullCheck(BaseCheck):
       # every log call inside the library is a point where other greenlets run
       env.yielding_logs()
       classes.add('yielding-log-handler')
+      try:
+        from scales.loadbalancer.heap import HeapBalancerSink as _HB
+        lb_, hops_ = w.dispatcher.next_sink, 0
+        while lb_ is not None and not isinstance(lb_, _HB) and hops_ < 8:
+          lb_, hops_ = getattr(lb_, 'next_sink', None), hops_ + 1
+        if isinstance(lb_, _HB):
+          # not while the logging greenlet holds the balancer's lock: event-loop callbacks of the
+          # library take that lock and cannot wait for it (see DESIGN, round 17)
+          env.log_yield_ok = lambda: getattr(lb_._heap_lock, '_owner', None) is not gevent.getcurrent()
+      except ImportError:
+        pass
 
     # ---------------------------------------------------------------- schedule
     horizon = min(max(Tset) * 3 + 2, 40.0)
@@ -223,7 +234,7 @@ class FullCheck(BaseCheck):
     t_start = env.now
     if boundary:
       classes.add('boundary')
-    methods = ['echo', 'echo', 'echo', 'fail', 'fail', 'swap', 'extra']
+    methods = ['echo', 'echo', 'echo', 'fail', 'fail', 'swap', 'extra', 'lock']
     for when, what in events:
       target = t_start + when
       if boundary:
@@ -237,6 +248,14 @@ class FullCheck(BaseCheck):
         if m == 'fail' and rng.random() < 0.4:
           tagstr += ':FINE'         # this call returns a value; 'fail' otherwise raises its declared exception
         args = (ttypes.Pair(name=tagstr, n=cid, nums=[1, 2], kv={}),) if m == 'swap' else (tagstr,)
+        kw = None
+        if m == 'lock':
+          # a service method one of whose parameters is called 'timeout', passed by position or by keyword
+          if rng.random() < 0.6:
+            kw = {'timeout': rng.randint(1, 90)}
+            classes.add('argument-named-timeout-by-keyword')
+          else:
+            args = (tagstr, rng.randint(1, 90))
         if rng.random() < bias.get('unserialisable', 0.03):
           # an argument the binary protocol cannot write (wrong type for the declared field): the
           # call never reaches a server, it still completes exactly once - with an error
@@ -249,7 +268,9 @@ class FullCheck(BaseCheck):
           # ping round trip on the mux stack), or one grid step around it
           T = max(0.002, conn_lat + (0.0005 if kind == 'mux' else 0.0) + rng.choice([0.0, 0.0, 0.01, -0.01]))
           classes.add('deadline-at-open-completion')
-        rec = w.call(m, args, timeout=T)
+        rec = w.call(m, args, timeout=T, kwargs=kw)
+        if rec.get('via_proxy'):
+          classes.add('through-generated-client')
         if not rec['open_ready_at_issue']:
           classes.add('issued-before-open')
       elif what == 'hog':
@@ -406,7 +427,7 @@ class FullCheck(BaseCheck):
         stats['errors'] += 1
         kinds.append('error')
       # -------- C02
-      exp = servers.expected_reply(rec['method'], rec['args'])
+      exp = servers.expected_reply(rec['method'], rec['args'], rec.get('kwargs'))
       if c0['kind'] == 'value':
         ob('reply:')
         v = c0['payload']
@@ -433,16 +454,17 @@ class FullCheck(BaseCheck):
         viol('reply:request-not-from-a-call', 'server decoded %r which no caller issued' % (q['call'],), {})
         continue
       rec = w.calls[c]
-      a_ok = q['call'][0] == rec['method'] and len(q['call'][1]) == len(rec['args'])
+      passed = tuple(rec['args']) + tuple((rec.get('kwargs') or {}).values())      # keywords are given in declared order
+      a_ok = q['call'][0] == rec['method'] and len(q['call'][1]) == len(passed)
       if a_ok:
-        for g, a in zip(q['call'][1], rec['args']):
+        for g, a in zip(q['call'][1], passed):
           if isinstance(a, ttypes.Pair):
             a_ok = a_ok and isinstance(g, ttypes.Pair) and (g.name, g.n, g.nums, g.kv) == (a.name, a.n, a.nums, a.kv)
           else:
             a_ok = a_ok and g == a
       if not a_ok or not q['consumed_all']:
-        viol('reply:request-altered', 'server decoded %r for call %d which passed %s%r' % (
-          q['call'], c, rec['method'], rec['args']), {})
+        viol('reply:request-altered', 'server decoded %r for call %d which passed %s%r %r' % (
+          q['call'], c, rec['method'], rec['args'], rec.get('kwargs') or {}), {})
     if decoy_error is not None:
       viol('reply:request-altered', 'a call of another service of this process (Ext2Service.extra(7, \'decoy\')) could '
            'not be marshalled with its own argument struct: %r' % decoy_error, {'other_service': True})
